@@ -183,6 +183,14 @@ func (db *DB) Backup(dir string) error {
 
 	// 如果使用 mmap IO实现, 需要先将所有文件大小更新为真实大小
 	if db.options.FileIOType == fio.MemoryMap {
+		// 文件仍处于映射状态, 拷贝完成后必须恢复为映射区域的大小
+		// 否则之后的写入落在文件末尾之外: 小的写入丢失, 跨页的写入触发 SIGBUS
+		defer func() {
+			_ = db.activeFile.ReadWriter.(*fio.MMap).RestoreFileSize()
+			for _, file := range db.olderFiles {
+				_ = file.ReadWriter.(*fio.MMap).RestoreFileSize()
+			}
+		}()
 		if err := db.activeFile.ReadWriter.(*fio.MMap).ResetFileSize(); err != nil {
 			return err
 		}
